@@ -906,6 +906,15 @@ pub fn gen_case(tier: Tier, seed: u64, idx: u64) -> Case {
                 o.alias_limits.max_total_replayed_events = *rng.pick(&[1usize, 2, 3, 5]);
                 o.alias_limits.max_alias_expansions_per_anchor = *rng.pick(&[1usize, 2, usize::MAX]);
             }
+            if !exhaustive && rng.chance(1, 5) {
+                // node / depth limits in the range of the alphabet's documents: per-document accounting
+                // must start afresh after a document that failed half-way (the batch function counts
+                // over the whole stream, which the batch clause leaves to C07)
+                let mut b = o.budget.clone().unwrap_or_default();
+                b.max_nodes = *rng.pick(&[6usize, 8, 12, 20]);
+                b.max_depth = *rng.pick(&[2usize, 3, 4, 6]);
+                o.budget = Some(b);
+            }
             o
         },
     };
